@@ -26,6 +26,9 @@ var _ = atomic.AddInt64
 
 var verifCodes = []int{@CODES@}
 
+// verifTagged[k]: token k carries a value
+var verifTagged = []bool{@TAGGED@}
+
 const verifBadCode = @BADCODE@
 
 // verifBadCodes: token codes the grammar does not declare - the far one, the
@@ -120,6 +123,11 @@ func verifGetToken(input string, val *ValType, pos *int) int {
 		return verifBadCodes[(p*31+len(input)*7)%len(verifBadCodes)]
 	}
 	k := int(c) - 64
+	if !verifTagged[k] && p%2 == 1 {
+		// a token without value: this lexer leaves the value cell as it is (it still holds the
+		// previous token's value) for every second such token
+		return verifCodes[k]
+	}
 	*val = ValType{s: "!", t: "!", n: -9999, m: -9999, st: "!", nm: -9999}
 	sv := string(rune('a'+k%26)) + "@" + strconv.Itoa(p)
 	nv := (7*p + k + 1) % 10007
